@@ -4,6 +4,42 @@ import json, os
 VERIF = os.path.dirname(os.path.dirname(os.path.abspath(__file__)))
 
 CLAIMED = {
+    "C02": dict(
+        text=("Coq theorems over the model of reply(), for every configuration, connection table and frame: a frame whose "
+              "destination MAC is not authorised (independent reading ref_auth, proved equal to the model's test for all "
+              "MACs), whose IP source is denied, or whose EtherType / next protocol is unsupported gets no reply and leaves "
+              "the table untouched; with a self-IP list every reply's source address, ARP sender address and advertised "
+              "neighbour-discovery target is on the list (decided by independent decoders on the emitted frame). Tied to "
+              "/repo by differential execution (MAC grid with every single-bit flip, address scopes, all 256 next "
+              "protocols, EtherType grid / all 65536 in thorough) and by evaluating the extracted monitor on real output."),
+        design="DESIGN.md section 5, C02",
+        note="Trusted: Coq kernel/vm_compute, extraction + OCaml driver, harness; correspondence is testing; pnet accessor semantics modelled.",
+        technique="Coq theorem (case analysis over the factorised pipeline) + model/implementation correspondence"),
+    "C03": dict(
+        text=("Coq theorem over the model of reply(): every emitted frame decodes (independent decoders) to Ethernet source "
+              "= configured MAC, destination = requester's MAC, same EtherType, same IP version and transport, IP source = "
+              "request's destination (ND: the solicited target), IP destination = request's source, ports swapped, except "
+              "that a STUN success response to a request carrying a change-port CHANGE-REQUEST (independent STUN reading) "
+              "comes from destination port + 1 mod 2^16; no other responder can produce that exception (per-responder "
+              "lemmas; constants via env_ok, re-decided per run). At most one reply per frame is the type of reply(). Tied "
+              "to /repo by differential execution over all reply kinds, both IP versions, random addresses/MACs/ports."),
+        design="DESIGN.md section 5, C03",
+        note=("Trusted: Coq kernel/vm_compute, extraction + OCaml driver, harness; correspondence is testing; pnet accessor "
+              "semantics modelled. Two genuine defects found while proving it were repaired in /repo (STUN method decoding, "
+              "multiple CHANGE-REQUEST attributes)."),
+        technique="Coq theorem (decode-after-encode laws + per-responder port lemmas) + model/implementation correspondence"),
+    "C05": dict(
+        text=("Coq theorem over the model of reply(): an ARP request (op 1) for a handled IPv4 address gets an Ethernet/IPv4 "
+              "ARP reply op 2 with sender = (configured MAC, requested address) and target = requester's pair; a code-0 "
+              "Neighbour Solicitation (>= 24 bytes) for a handled target gets a Neighbour Advertisement for that target with "
+              "S|O set, R clear and one TLLA option = configured MAC; code-0 Echo Requests (v4/v6) get Echo Replies with "
+              "identical rest-of-header and data for every length; every other ARP op, ICMP type and non-zero code gets "
+              "nothing. Tied to /repo by differential execution: all ARP ops on a grid, all type/code pairs, payload "
+              "lengths 0..1472, NS option layouts."),
+        design="DESIGN.md section 5, C05",
+        note=("Trusted: Coq kernel/vm_compute, extraction + OCaml driver, harness; correspondence is testing. ARP requests "
+              "with a non-IPv4 ptype/hlen/plen are outside the positive clause (the code mirrors those fields)."),
+        technique="Coq theorem (structured cases over the factorised pipeline) + model/implementation correspondence"),
     "C06": dict(
         text=("Machine-checked theorems (Coq 8.16.1) over a Gallina model of the whole reply pipeline: for every "
               "configuration, connection table and frame, what reply() emits satisfies the executable C06 "
